@@ -167,6 +167,8 @@ class ReqPathRun(object):
                                      idle_heartbeat_interval=0, reconnection_policy=w.cpol.ConstantReconnectionPolicy(
                                          ex.get('reconnect_delay', 1.0), max_attempts=None),
                                      **plan.get('cluster_kw', {}))
+            for k_, v_ in plan.get('cluster_attrs', {}).items():
+                setattr(cluster, k_, v_)
             session = cluster.connect(wait_for_all_pools=True)
         except Exception as e:
             self.connect_error = repr(e)
